@@ -838,6 +838,18 @@ func verifC08DHTSpecials(bases []verifC08Base) []verifC08Case {
 	b5[15] = 255
 	b5[8] = 255
 	variants = append(variants, b5)
+	// a scan header with Ns=0 (no components) before any frame header, and in front of a valid stream's own SOS
+	sos0 := verifC08Seg(0xDA, 0x00, 0x00, 0x3F, 0x00)
+	out = append(out, verifC08Case{base: "SOI+SOS(Ns=0)+EOI", kind: "special", off: 100, data: append(append([]byte{0xFF, 0xD8}, sos0...), 0xFF, 0xD9)})
+	out = append(out, verifC08Case{base: "SOI+SOS(Ns=0)+8 scan bytes", kind: "special", off: 101, data: append(append([]byte{0xFF, 0xD8}, sos0...), 1, 2, 3, 4, 5, 6, 7, 8)})
+	for bi, b := range bases {
+		if bi > 1 {
+			break
+		}
+		sp := verifC08Segments(b.data)
+		out = append(out, verifC08Case{base: b.name + " + SOS(Ns=0) before SOS", kind: "special", off: 102, data: verifC08WithSegment(b.data, len(sp)-1, sos0)})
+		out = append(out, verifC08Case{base: b.name + " + SOS(Ns=0) first", kind: "special", off: 103, data: verifC08WithSegment(b.data, 0, sos0)})
+	}
 	for vi, v := range variants {
 		for _, tcth := range []byte{0x00, 0x10, 0x01} {
 			seg := mk(tcth, v)
@@ -862,7 +874,7 @@ func verifC08JPEGDomain(tier string, nb int, extra string) string {
 		n, w, r = 1500, 1500, 6000
 		vals = "all 256 values"
 	}
-	return fmt.Sprintf("tier=%s seed=%d; %d valid streams from the package encoder (%s); each: unchanged, every truncation, byte substitution at first %d bytes x %s, 16-bit big-endian substitution {0,1,0x7fff,0x8000,0xffff} at first %d offsets, marker-segment drop/dup/swap/move-first; %d seeded random strings per start prefix (SOI, and a valid header through SOS); handcrafted specials (non-prefix-code DHT BITS; for JPEG-LS: LSE preset grids and the SOF55.P x SOS.NEAR grid); inputs whose independently parsed frame header (any SOFn-looking position) declares > 2^22 samples are skipped",
+	return fmt.Sprintf("tier=%s seed=%d; %d valid streams from the package encoder (%s); each: unchanged, every truncation, byte substitution at first %d bytes x %s, 16-bit big-endian substitution {0,1,0x7fff,0x8000,0xffff} at first %d offsets, marker-segment drop/dup/swap/move-first; %d seeded random strings per start prefix (SOI, and a valid header through SOS); handcrafted specials (non-prefix-code DHT BITS, SOS with Ns=0; for JPEG-LS: LSE preset grids and the SOF55.P x SOS.NEAR grid); inputs whose independently parsed frame header (any SOFn-looking position) declares > 2^22 samples are skipped",
 		tier, verifC08Seed(), nb, extra, n, vals, w, r)
 }
 
